@@ -217,8 +217,22 @@ fn json_range_probe(a: &[String]) -> tantivy::Result<bool> {
     Ok(searcher.segment_readers().len() == 1 && matched == should)
 }
 
+mod probe_update_merge;
+
 fn main() -> tantivy::Result<()> {
     let args: Vec<String> = std::env::args().collect();
+    // `--probe <name>`: heavier single-purpose scenarios, run on demand only
+    if let Some(p) = args.iter().position(|a| a == "--probe") {
+        let name = args[p + 1].as_str();
+        let ok = match name {
+            "update_survives_uncommitted_merge" => {
+                std::panic::catch_unwind(|| matches!(probe_update_merge::run(), Ok(()))).unwrap_or(false)
+            }
+            _ => false,
+        };
+        println!("{{\"n\":0,\"api\":\"{}\",\"ok\":{}}}", name, ok);
+        return Ok(());
+    }
     if let Some(p) = args.iter().position(|a| a == "--json-range") {
         let r = json_range_probe(&args[p + 1..]);
         println!("{{\"n\":0,\"api\":\"json_range\",\"ok\":{}}}", matches!(r, Ok(true)));
@@ -410,6 +424,57 @@ fn main() -> tantivy::Result<()> {
         Ok(searcher.segment_readers().len() == 1 && d == 5003 && s.score() == expected && here_ok)
     })();
     rec.api("union_score_after_fill_buffer", matches!(r4, Ok(true)));
+    // fifth scenario: a commit whose deletes empty a whole segment; after garbage collection the
+    // managed files are exactly those of the searchable segments plus meta.json (no orphan)
+    let r5 = (|| -> tantivy::Result<bool> {
+        let mut sb = Schema::builder();
+        let tag = sb.add_text_field("tag", STRING);
+        let index = Index::create_in_ram(sb.build());
+        let mut w: IndexWriter = index.writer_with_num_threads(1, 50_000_000)?;
+        w.set_merge_policy(Box::new(tantivy::indexer::NoMergePolicy));
+        for _ in 0..3 {
+            w.add_document(doc!(tag => "a"))?;
+        }
+        w.commit()?;
+        for _ in 0..3 {
+            w.add_document(doc!(tag => "b"))?;
+        }
+        w.commit()?;
+        w.delete_term(Term::from_field_text(tag, "a"));
+        w.commit()?;
+        w.garbage_collect_files().wait()?;
+        let mut expected: std::collections::HashSet<std::path::PathBuf> = index
+            .searchable_segment_metas()?
+            .iter()
+            .flat_map(|m| m.list_files())
+            .collect();
+        expected.insert(std::path::PathBuf::from("meta.json"));
+        let managed = index.directory().list_managed_files();
+        Ok(index.searchable_segment_metas()?.len() == 1 && managed.iter().all(|p| expected.contains(p)))
+    })();
+    rec.api("no_orphan_after_emptied_segment", matches!(r5, Ok(true)));
+    // sixth scenario: merging segments without deletes keeps the exact token count of a field
+    // (BM25's average field length must not depend on how the documents were split)
+    let r6 = (|| -> tantivy::Result<bool> {
+        let mut sb = Schema::builder();
+        let f = sb.add_text_field("f", TEXT);
+        let index = Index::create_in_ram(sb.build());
+        let mut w: IndexWriter = index.writer_with_num_threads(1, 50_000_000)?;
+        w.set_merge_policy(Box::new(tantivy::indexer::NoMergePolicy));
+        let mut total = 0u64;
+        for n in [45usize, 41, 333] {
+            w.add_document(doc!(f => vec!["w"; n].join(" ")))?;
+            w.add_document(doc!(f => "w w w"))?;
+            total += n as u64 + 3;
+            w.commit()?;
+        }
+        let ids = index.searchable_segment_ids()?;
+        w.merge(&ids).wait()?;
+        let searcher = index.reader()?.searcher();
+        let inv = searcher.segment_reader(0).inverted_index(f)?;
+        Ok(searcher.segment_readers().len() == 1 && inv.total_num_tokens() == total)
+    })();
+    rec.api("merge_keeps_exact_token_count", matches!(r6, Ok(true)));
     for l in rec.log.lock().unwrap().iter() {
         println!("{}", l);
     }
